@@ -108,7 +108,7 @@ func (g *G) lit(t ty) string {
 	case tBool:
 		return []string{"true", "false"}[g.pick(2)]
 	case tStr:
-		return []string{`"ab"`, `""`, `"x"`, `"hello"`}[g.pick(4)]
+		return []string{`"ab"`, `""`, `"x"`, `"hello"`, `"日本語のテキスト"`, `"ééééééééééé"`, `"twenty five ascii letters"`}[g.pick(7)]
 	case tArr:
 		return []string{"[]", "[1, 2, 3]", "[4]", "[5, 6]"}[g.pick(4)]
 	}
@@ -164,7 +164,10 @@ func (g *G) expr(t ty, d int) string {
 			return g.expr(tInt, 0)
 		}
 	case tFloat:
-		switch g.pick(4) {
+		switch g.pick(5) {
+		case 4:
+			// division tells an int from a float of the same value
+			return g.paren(g.expr(tFloat, d-1)) + " / " + []string{"2", "4", "0.5", "3", "8.0"}[g.pick(5)]
 		case 0:
 			op := []string{"+", "-", "*"}[g.pick(3)]
 			return g.paren(g.expr(tFloat, d-1)) + " " + op + " " + g.paren(g.expr([]ty{tInt, tFloat}[g.pick(2)], d-1))
@@ -340,6 +343,11 @@ func (g *G) stmt(d int, ret ty) string {
 			if t == tInt && g.pick(3) == 0 {
 				return []string{v.name + " = " + v.name + " + 1", v.name + " = 1 + " + v.name, v.name + " = " + v.name + " + 2", v.name + " = 2 + " + v.name,
 					v.name + " = " + v.name + " - 1", v.name + " = " + v.name + " * 2", v.name + " = " + v.name + " + " + v.name, v.name + " = 1 + " + v.name + " + 1"}[g.pick(8)]
+			}
+			if t == tInt && g.pick(8) == 0 {
+				// the sum with a float literal turns the variable into a float
+				v.t = tFloat
+				return []string{v.name + " = " + v.name + " + 1.0", v.name + " = 1.0 + " + v.name, v.name + " = " + v.name + " + 0.5", v.name + " = " + v.name + " * 1.0"}[g.pick(4)]
 			}
 			if (t == tStr || t == tArr) && g.pick(4) == 0 {
 				return v.name + " = " + v.name + " + " + g.expr(t, 0)
